@@ -271,7 +271,7 @@ def judge(ctx, cases, bad):
 
 
 def run(ctx: core.Ctx):
-    n = 45 if ctx.quick() else 500
+    n = 100 if ctx.quick() else 600
     if getattr(ctx, "deep", False):
         n *= 3
     cases = load_corpus() + gen_cases(ctx, n)
